@@ -43,7 +43,8 @@ template <class C> struct Runner {
     }
     void run_row(size_t i) {
         int sig;
-        if ((sig = GUARD_ENTER()) == 0) { for (size_t j = 0; j < fam.size(); j++) pair(fam[i], fam[j]); GUARD_LEAVE(); }
+        SanWatch sw;
+        if ((sig = GUARD_ENTER()) == 0) { for (size_t j = 0; j < fam.size(); j++) pair(fam[i], fam[j]); GUARD_LEAVE(); if (sw.tripped()) ctx->violation("", enc(fam[i].text, fam[i].text), "AddressSanitizer reported an invalid access while comparing this URI with the family"); }
         else ctx->violation("", enc(fam[i].text, ""), fmt("%s in uriEqualsUri (crash or write to an argument)", signame(sig)));
     }
     void triples(size_t i, size_t n) {
